@@ -136,7 +136,20 @@ reg(part('memmem_pre_full', 'src/memmem/searcher.rs', 'memmem::searcher',
          drop_fields=['Prefilter.call'],
          drop_items=['impl Prefilter::fn fallback', 'impl Prefilter::fn sse2', 'impl Prefilter::fn avx2',
                      'impl Prefilter::fn simd128', 'impl Prefilter::fn neon', 'impl Prefilter::fn find']))
+# the WHOLE forward meta searcher with the fn pointers defunctionalised (X15): Searcher::{new,twoway,find},
+# Prefilter::{fallback,sse2,avx2,find,find_simple}, the kind functions, PrefilterState, Pre, do_packed_search
+X15 = [dict(type='SearcherKindFn', prefix='searcher_kind_', impl='impl Searcher'),
+       dict(type='PrefilterKindFn', prefix='prefilter_kind_', impl='impl Prefilter')]
+reg(part('memmem_meta', 'src/memmem/searcher.rs', 'memmem::searcher', cfg='x86_64', defunc=X15,
+         drop_items=['struct SearcherRev', 'enum SearcherRevKind', 'impl SearcherRev', 'enum PrefilterConfig',
+                     'impl Default for PrefilterConfig', 'impl PrefilterConfig',
+                     'use crate::arch::aarch64::neon::packedpairasneon', 'use crate::arch::wasm32::simd128::packedpairassimd128'],
+         drop_fields=['SearcherKind.simd128', 'SearcherKind.neon', 'PrefilterKind.simd128', 'PrefilterKind.neon']))
 reg(part('memmem_reexport', 'src/memmem/mod.rs', 'memmem', only_items=['use crate::memmem::searcher::Pre']))
+
+clone_part('memmem_searcher_rev', 'memmem_searcher')
+clone_part('all_twoway_f', 'all_twoway')
+clone_part('memmem_mod_f', 'memmem_mod')
 
 P0 = ['prelude/vbase.vrs']
 BASE = ['ext', 'vector', 'generic_memchr']
@@ -172,6 +185,12 @@ BUILDS = {
                           'generic_packedpair', 'simd128_packedpair'],
                    prelude=P0 + ['prelude/isa.vrs', 'prelude/x_eqrk.vrs', 'prelude/x_pp.vrs']),
     'other': dict(parts=['ext', 'vector', 'generic_memchr', 'all_memchr', 'memchr_top_other', 'root_reexport'], prelude=P0),
+    # unified build: the whole substring stack with the fn pointers defunctionalised (X15); nothing assumed about Searcher
+    'full': dict(parts=['ext', 'vector', 'generic_memchr', 'sse2_memchr', 'avx2_memchr', 'all_memchr', 'x86_64_memchr',
+                        'memchr_top', 'root_reexport', 'all_mod', 'all_rabinkarp', 'all_packedpair', 'all_default_rank',
+                        'generic_packedpair', 'sse2_packedpair', 'avx2_packedpair', 'all_twoway_f', 'cow', 'memmem_mod_f',
+                        'memmem_meta', 'memmem_searcher_rev'],
+                 prelude=P0 + ['prelude/x_eqrk.vrs', 'prelude/x_pp.vrs', 'prelude/x_tw.vrs', 'prelude/x_twc.vrs', 'prelude/x_memmem.vrs', 'prelude/x_meta.vrs']),
     # S variant (release semantics, type invariants only): decides C05 for the packed-pair finders
     'safe': dict(parts=['ext', 'stub_root', 's_vector', 's_all_mod', 's_all_packedpair', 'all_default_rank',
                         's_generic_packedpair', 's_sse2_packedpair', 's_avx2_packedpair'],
